@@ -20,6 +20,9 @@ COLS = [
     [2.0, 11.0, 1.0, 4.0, 7.0],
 ]
 CONST = 3.0
+# large offset, small spread (exactly representable): a one-pass variance formula cancels catastrophically here
+BIG = [1e8 + 0.25, 1e8 + 0.5, 1e8 + 1.0, 1e8 + 2.0, 1e8 + 4.0]
+DEC_CONST = 0.1  # constant non-dyadic column: variance must come out as ~0, not as a negative rounding residue
 PROBS = [0.0, 0.1, 0.25, 0.5, 0.75, 0.9, 1.0]
 
 # (D, Ns, wl: weight level, fl: pattern level)
@@ -38,7 +41,7 @@ def describe(tier):
         "(quantile only); both policies; NaN and (0,False) formats. Oracles from the rows of each cell: stddev (ddof=1; weighted = reliability variance x n/(n-1); "
         "missing also for < 2 valid rows); unweighted quantile by linear interpolation at p in %r; weighted quantile: missing rule, invariance under w -> 3w, "
         "result within [min,max] of the valid values; min/max; covariance (aweights normalisation; complete rows when ignoring, per column pair otherwise); "
-        "unweighted correlation (entries with a zero-variance column or < 2 rows not compared). Non-trivial: some cell has >= 2 valid rows and some cell is missing. "
+        "unweighted correlation (entries with a zero-variance column or < 2 rows not compared). stddev also on a large-offset/small-spread column (1e8 + {0.25..4}) and a constant 0.1 column, against an exact rational oracle (relative tolerance 1e-6); weighted quantile also with one zero weight / a (0-filled, validity) weight, where only the missing rule is claimed. Non-trivial: some cell has >= 2 valid rows and some cell is missing. "
         "Distinct = distinct (data, statistic, call)." % (PROBS,),
         "bounds": {"sets": SETS[tier], "E": E},
         "exhaustive": True,
@@ -55,7 +58,16 @@ def fact_arg(N, cols, pattern, form):
     """cols: list of column ids (0..2 or 'c' for constant); [] -> handled by caller (1-D uses one col, flat shape).
     pattern: tuple of N*len(cols) bools (True = missing). Returns (arg, x[N][K], valid[N][K])."""
     K = len(cols)
-    x = [[(CONST if c == "c" else COLS[c][r]) for c in cols] for r in range(N)]
+    def val(c, r):
+        if c == "c":
+            return CONST
+        if c == "d":
+            return DEC_CONST
+        if c == "b":
+            return BIG[r]
+        return COLS[c][r]
+
+    x = [[val(c, r) for c in cols] for r in range(N)]
     miss = [[bool(pattern[r * K + k]) for k in range(K)] for r in range(N)]
     valid = [[not m for m in row] for row in miss]
     vals = numpy.array(x, dtype=float).reshape((N, K))
@@ -139,18 +151,24 @@ def rule_missing(rows, good, ignore):
 
 
 def o_stddev(rows, x, valid, k, w, wok, ignore):
+    """Exact rational arithmetic (the float inputs are exact rationals), so the oracle itself has no rounding error."""
+    from fractions import Fraction as Fr
+
     good = usable(rows, valid, k, wok)
     m = rule_missing(rows, good, ignore) or len(good) < 2
     if m:
         return None
     n = len(good)
+    xs = [Fr(x[r][k]) for r in good]
     if w is None:
-        mean = sum(x[r][k] for r in good) / n
-        return math.sqrt(sum((x[r][k] - mean) ** 2 for r in good) / (n - 1))
-    sw = sum(w[r] for r in good)
-    mean = sum(w[r] * x[r][k] for r in good) / sw
-    var = sum(w[r] * (x[r][k] - mean) ** 2 for r in good) / sw
-    return math.sqrt(var * n / (n - 1))
+        mean = sum(xs) / n
+        var = sum((v - mean) ** 2 for v in xs) / (n - 1)
+    else:
+        ws = [Fr(w[r]) for r in good]
+        sw = sum(ws)
+        mean = sum(a * b for a, b in zip(ws, xs)) / sw
+        var = sum(a * (v - mean) ** 2 for a, v in zip(ws, xs)) / sw * Fr(n, n - 1)
+    return math.sqrt(float(var))
 
 
 def o_quantile(rows, x, valid, k, ignore, p):
@@ -270,9 +288,9 @@ def check_data(datas, N, cfg, acc, only=None):
 
     # ---------------- stddev
     if want("stddev"):
-        for cols in ([0], [0, 1], [0, "c"]):
+        for cols in ([0], [0, 1], [0, "c"], ["b"], ["d", "b"]):
             K = len(cols)
-            plist = patterns(N, K, fl)
+            plist = patterns(N, K, fl if cols[0] not in ("b", "d") else min(fl, 1))
             for pi, pat in enumerate(plist):
                 for form in (["nan", "pair-huge"] if (pi == min(1, len(plist) - 1) or fl >= 2) else ["nan"]):
                     for ws in wspecs(N, wl):
@@ -309,7 +327,7 @@ def check_data(datas, N, cfg, acc, only=None):
                                                 report("stddev", call, "cell %r col %d should be missing, got %r" % (coords, k, float(cellidx(v, coords, ex))))
                                         elif gm:
                                             report("stddev", call, "cell %r col %d reported missing, expected %r" % (coords, k, exp))
-                                        elif not close(float(cellidx(v, coords, ex)), exp):
+                                        elif not (abs(float(cellidx(v, coords, ex)) - exp) <= 1e-6 * abs(exp) + 1e-9):
                                             report("stddev", call, "cell %r col %d = %r, expected %r" % (coords, k, float(cellidx(v, coords, ex)), exp))
                                 record("stddev", call, anym, multi)
 
@@ -318,7 +336,12 @@ def check_data(datas, N, cfg, acc, only=None):
         for cols in ([0], [0, 1]):
             K = len(cols)
             for pat in patterns(N, K, fl):
-                for ws in wspecs(N, wl, scalar=True):
+                zero_specs = []
+                if N >= 2 and K == 1:
+                    for i in range(N):
+                        zero_specs.append(("array", tuple("Z" if j == i else "P" for j in range(N)), "nan"))
+                        zero_specs.append(("array", tuple("M" if j == i else "P" for j in range(N)), "pair-zero"))
+                for ws in wspecs(N, wl, scalar=True) + zero_specs:
                     for ignore in (False, True):
                         probs = PROBS if (ws[0] == "none" or wl >= 2) else [0.1, 0.5, 1.0]
                         for p in probs:
@@ -359,6 +382,11 @@ def check_data(datas, N, cfg, acc, only=None):
                                         good = usable(rows, valid, k, wok)
                                         em = rule_missing(rows, good, ignore)
                                         anym = anym or em
+                                        if ws[0] == "array" and "Z" in ws[1]:
+                                            # zero weights: only the missing rule is claimed (a zero weight can make the interpolation 0/0)
+                                            if em and not gm:
+                                                report("quantile", call, "cell %r col %d has a missing row (rule says missing) but %r was returned" % (coords, k, gv))
+                                            continue
                                         if em != gm:
                                             report("quantile", call, "cell %r col %d missing=%r, rule says %r (value %r)" % (coords, k, gm, em, gv))
                                             continue
